@@ -305,4 +305,8 @@ def faults(ctx, ch):
                 for retain in (False, True):
                     out.append(dict(base, when="before", action="partial", cut=cut,
                                     exc="KeyboardInterrupt", retain=retain, cls=cls))
+                # a write that fails with an ordinary error (EIO, EPIPE, ENOSPC) has usually
+                # delivered a prefix too
+                out.append(dict(base, when="before", action="partial", cut=cut, exc="OSError",
+                                retain=False, cls=cls))
     return out
